@@ -158,8 +158,16 @@ JudgeDelivery(role, e, sameCtx, ridOwn, res, equal) ==
     THEN IF res = "other" \/ (res = "msg" /\ ~equal) THEN {"C11_TamperRejected"} ELSE {}
   ELSE IF res = "reject" THEN {} ELSE {"C11_TamperRejected"}
 
-JudgeOuter(oc, optnums, leak) ==
-  IF oc \in OuterCodes /\ optnums \subseteq OuterOptions /\ ~leak THEN {} ELSE {"C11_OuterRevealsNothing"}
+(* The outer code is a function of the use of Observe alone (RFC 8613       *)
+(* section 4.2): POST, or FETCH for an Observe request; 2.04, or 2.05 for   *)
+(* the responses to a FETCH.  A code chosen by the inner code would reveal  *)
+(* something about it.                                                      *)
+ExpectedOuterCode(role, observe, reqfetch) ==
+  IF role = "req" THEN (IF observe THEN FETCH ELSE POST) ELSE (IF reqfetch THEN CONTENT ELSE CHANGED)
+
+JudgeOuter(role, oc, observe, reqfetch, optnums, leak) ==
+  IF oc \in OuterCodes /\ oc = ExpectedOuterCode(role, observe, reqfetch)
+     /\ optnums \subseteq OuterOptions /\ ~leak THEN {} ELSE {"C11_OuterRevealsNothing"}
 
 (***************************************************************************)
 (* Closed system                                                           *)
@@ -195,7 +203,7 @@ ClientRequest ==
            p == ProtectRequest(Client, m, nreq, sendCtx, observe)
        IN /\ net' = Append(net, p)
           /\ pend' = pend \cup {Len(net) + 1}
-          /\ bad' = bad \cup JudgeOuter(p.oc, {9} \cup (IF observe THEN {6} ELSE {}), FALSE)
+          /\ bad' = bad \cup JudgeOuter("req", p.oc, observe, FALSE, {9} \cup (IF observe THEN {6} ELSE {}), FALSE)
           /\ act' = [k |-> "request", sendCtx |-> sendCtx, observe |-> observe]
   /\ nreq' = nreq + 1
   /\ UNCHANGED <<idc, seen, used, nresp>>
@@ -221,13 +229,14 @@ ServerReceive ==
 
 ServerRespond ==
   /\ nresp < MaxResp
-  /\ \E x \in seen, own \in BOOLEAN, oc \in {CHANGED, CONTENT} :
+  /\ \E x \in seen, own \in BOOLEAN :
        LET m == RespNames[nresp + 1]
+           oc == IF net[x.ri].oc = FETCH THEN CONTENT ELSE CHANGED     \* code style of the request
            p == ProtectResponse(Server, m, x.rid, own, 10 + nresp, oc)
        IN /\ (~own => x.ri \notin used)          \* the request's nonce may be reused once only
           /\ net' = Append(net, p)
           /\ used' = IF own THEN used ELSE used \cup {x.ri}
-          /\ bad' = bad \cup JudgeOuter(p.oc, {9}, FALSE)
+          /\ bad' = bad \cup JudgeOuter("resp", p.oc, FALSE, net[x.ri].oc = FETCH, {9}, FALSE)
           /\ act' = [k |-> "respond", ri |-> x.ri, own |-> own, oc |-> oc]
   /\ nresp' = nresp + 1
   /\ UNCHANGED <<idc, pend, seen, nreq>>
